@@ -327,8 +327,10 @@ def _scenarios(nex, n_sched):
 # ---- back-pressure of the stream item queue (capacity 100, not configurable from outside) ------------
 
 BP_SDL = """
-type Query { xs(n: Int): [X!]  ys(n: Int): [Int]  zs(n: Int): [X] }
+type Query { xs(n: Int): [X!]  ys(n: Int): [Int]  zs(n: Int): [X]  p: P }
 type X { id: Int  tail: [Int]  slow: Int }
+type P { fail: Int!  q: Q }
+type Q { fail2: Int!  slow: Int }
 """
 BP_DOCS = [
     "{ ys(n: %d) @stream(initialCount: %d) }",
@@ -336,6 +338,9 @@ BP_DOCS = [
     "{ xs(n: %d) @stream(initialCount: %d) { id tail @stream(initialCount: 1) } }",
     "{ zs(n: %d) @stream(initialCount: %d) { id ... @defer(label: \"D\") { slow } } }",
     "{ ... @defer(label: \"D0\") { ys(n: %d) @stream(initialCount: %d) } }",
+    # two levels of "settle in the background": P.fail fails synchronously while q is pending; when q arrives,
+    # Q.fail2 fails synchronously while slow is pending
+    "{ p { q { slow fail2 } fail } ys(n: %d) @stream(initialCount: %d) }",
 ]
 _BP = {}
 
@@ -418,7 +423,12 @@ def run_backpressure(case):
     def x(i):
         return {"id": i, "tail": (lambda _info: tail(i)), "slow": (lambda _info: later(f"f:slow/{i}", i)) if i in gated else i}
 
-    root = {"ys": lambda _info, n=0: make_list("ys", n, lambda i: i),
+    def boom(_info):
+        raise Boom("planted")
+
+    root = {"p": {"fail": boom,
+                  "q": lambda _info: later("f:q", {"fail2": boom, "slow": lambda _i: later("f:slow2", 1)})},
+            "ys": lambda _info, n=0: make_list("ys", n, lambda i: i),
             "xs": lambda _info, n=0: make_list("xs", n, x),
             "zs": lambda _info, n=0: make_list("zs", n, x)}
     controller = AbortController()
@@ -560,7 +570,7 @@ def eval_backpressure(case, prop="C06"):
     if out["unhandled"]:
         bad("unhandled-loop-exception", f"{out['unhandled'][:2]}")
     # completeness / order / no duplicates when the consumer reads to the end and nothing fails
-    name = ["ys", "xs", "xs", "zs", "ys"][case["doc"]]
+    name = ["ys", "xs", "xs", "zs", "ys", "ys"][case["doc"]]
     if stop["kind"] == "none" and out["end"] == "stop" and case.get("fail_at") is None:
         init = out["initial"].get("data") or {}
         got = list(init.get(name) or [])
